@@ -863,6 +863,12 @@ def c17_r3(ctx):
             (ra, ia), (rb, ib) = pa, pb
             return ra != rb and ia == ib == io and {ra, rb} == {1, 2}
         edges = f.cmp_edges(lambda d: d["op"] == "Ne" and differ(d), True) | f.cmp_edges(lambda d: d["op"] == "Eq" and differ(d), False)
+        if not edges:
+            # tickets are compared, but not as `a.infos[i].ticket` vs `b.infos[i].ticket` (e.g.
+            # element-wise over zip): the alignment cannot be read off index expressions
+            other = f.cmp_edges(lambda d: "call" in d and d["call"].self_ty == "ticket::Ticket", True)
+            if other:
+                raise AnalysisError("idiom not recognised: %s compares tickets, but not through two index expressions with a common index" % f.id)
         if not f.dominated_by_edges(p.bb, edges):
             ctx.viol((f.id, "index-push-unguarded"), "an index is reported without `self.infos[i].ticket != other.infos[i].ticket` for that same i", p.where)
         else:
